@@ -3771,6 +3771,16 @@ class Valuation:
                 return self.strs[fmt(t[2])] in T.const_eval(t[3])
             except Exception:
                 pass
+        if t[0] == 'cmp' and t[1] == 'in' and self.nums:
+            # x in range(a, b) / frozenset(range(n)) / set(range(n)): a whole number of that span
+            r_ = t[3]
+            while r_[0] == 'call' and r_[1][0] == 'ext' and r_[1][1] in ('FROZENSET', 'SET', 'LIST', 'TUPLE', 'builtins.frozenset') and len(r_[2]) == 1 and not r_[3]:
+                r_ = r_[2][0]
+            if r_[0] == 'call' and r_[1][0] == 'ext' and r_[1][1] in ('RANGE', 'builtins.range') and 1 <= len(r_[2]) <= 2 and all(z[0] == 'num' for z in r_[2]) and not r_[3]:
+                x = self.value(t[2])
+                if x is not None:
+                    lo_, hi_ = (0, r_[2][0][1]) if len(r_[2]) == 1 else (r_[2][0][1], r_[2][1][1])
+                    return x.denominator == 1 and lo_ <= x < hi_
         if t[0] == 'cmp' and t[1] == 'in' and self.nums and t[3][0] in ('tuple', 'list', 'set') and all(z[0] == 'num' for z in t[3][1]):
             x = self.value(t[2])
             if x is not None:
